@@ -29,6 +29,8 @@ type c16Case struct {
 	Closed bool   `json:"closed"` // properly closed (with a scalar leaf) or left open
 	Limit  uint32 `json:"limit"`
 	Via    string `json:"via"` // detect | json | geo | ndjson
+	// Pre: index into c16Pres: a complete first element (a string with escapes, ...) precedes the nest
+	Pre int `json:"pre,omitempty"`
 	// SameAsPad0: also require the verdict to equal the verdict of the same nesting without padding
 	SameAsPad0 bool `json:"same_as_pad0,omitempty"`
 	// Primer: the case that ran immediately before this one in the same process (one level);
@@ -36,11 +38,34 @@ type c16Case struct {
 	Primer *c16Case `json:"primer,omitempty"`
 }
 
+// c16Pres: the outermost array / object starts with a complete member before the nest begins.
+// Index 1 is the plain reference; every other one must get the same verdict as index 1.
+var c16Pres = []string{"", "[0,", "[\"\\\\\",", "{\"p\":\"C:\\\\tmp\\\\\",\"d\":", "[\"a\\\"b\",", "[\"\\u005c\",", "[\" \\\\\\\\ \",", "[\"]]]]\",", "[\"[[[[\\\"\",", "[ \"\\\\\" ,\n"}
+
+func c16PreClose(pre string) string {
+	if pre == "" {
+		return ""
+	}
+	if pre[0] == '{' {
+		return "}"
+	}
+	return "]"
+}
+
 // shapes 6-8 are WIDE, not deep: one container with Depth members (nesting 2). Nothing in
 // them may make recursion (and with it the stack) grow with their size.
 func c16Wide(shape int) bool { return shape >= 6 }
 
 func c16Build(c c16Case) []byte {
+	if c.Pre > 0 && c.Pre < len(c16Pres) {
+		inner := c
+		inner.Pre = 0
+		b := append([]byte(c16Pres[c.Pre]), c16Build(inner)...)
+		if c.Closed {
+			b = append(b, c16PreClose(c16Pres[c.Pre])...)
+		}
+		return b
+	}
 	pad := strings.Repeat(" ", c.Pad)
 	if c16Wide(c.Shape) {
 		unit := []string{"\"k\":{}," + pad, "[]," + pad, "\"k\":1," + pad}[c.Shape-6]
@@ -92,6 +117,7 @@ func c16Build(c c16Case) []byte {
 }
 
 var c16MaxStackGrowth int64
+var c16Shared []byte
 
 func c16Run(c c16Case, x []byte) bool {
 	switch c.Via {
@@ -145,6 +171,33 @@ func c16Check(c c16Case) vfResult {
 		r.Err = fmt.Errorf("properly closed nesting of depth %d (shape %d, pad %d, via %s) is not reported as JSON", c.Depth, c.Shape, c.Pad, c.Via)
 	}
 	r.Nontrivial = c.Depth > 4096
+	if c.Pre > 1 && r.Err == nil {
+		// what the first member looks like is irrelevant to how deep the second one nests
+		c1 := c
+		c1.Pre, c1.Primer = 1, nil
+		if base := c16Run(c1, c16Build(c1)); base != isJSON {
+			r.Err = fmt.Errorf("nesting of depth %d (shape %d, closed=%v, via %s, limit %d) behind the complete first member %s: json=%v; behind the first member [0, json=%v - the depth cap depends on what precedes the nest", c.Depth, c.Shape, c.Closed, c.Via, c.Limit, vfQ([]byte(c16Pres[c.Pre])), isJSON, base)
+		}
+		r.Labels = append(r.Labels, "first-member-independence")
+	}
+	if c.Via == "detect" && r.Err == nil && len(x) < 3<<20 && c.Limit == 0 {
+		// the caller's buffer held a flat document of the same length just before
+		if cap(c16Shared) < len(x) {
+			c16Shared = make([]byte, len(x)+len(x)/2)
+		}
+		sh := c16Shared[:len(x)]
+		for i := range sh {
+			sh[i] = ' '
+		}
+		copy(sh, "[1,2,3]")
+		flat := vfDetectAt(sh, c.Limit)
+		copy(sh, x)
+		again := vfDetectAt(sh, c.Limit)
+		if againJSON := c08IsJSONFamily(again) || vfInFamily(again, "application/x-ndjson"); againJSON != isJSON {
+			r.Err = fmt.Errorf("nesting of depth %d (shape %d, closed=%v): detected first in a slice of its own json=%v; then in a caller buffer that held a flat document of the same length just before (reported as %s) it is %s", c.Depth, c.Shape, c.Closed, isJSON, vfChainStr(flat), vfChainStr(again))
+		}
+		r.Labels = append(r.Labels, "reused-buffer")
+	}
 	if c.SameAsPad0 && r.Err == nil && c.Pad > 0 {
 		// the cap is fixed: white space between the levels (a longer input) changes nothing
 		c0 := c
@@ -242,6 +295,27 @@ func TestVerif_C16(t *testing.T) {
 				if r.Err != nil {
 					vfEnumFail(t, "C16", "bombs", c, r.Err)
 					return
+				}
+			}
+		}
+	}
+	// a complete first member of every awkward spelling, then the nest
+	for pi := 2; pi < len(c16Pres); pi++ {
+		if pi%nsh != sh || t.Failed() {
+			continue
+		}
+		for _, d := range []int{4000, 4097, 5000, 200000, 1000000} {
+			for shape := 0; shape < 3; shape++ {
+				for _, closed := range []bool{true, false} {
+					for _, via := range []string{"json", "detect"} {
+						c := c16Case{Shape: shape, Depth: d, Closed: closed, Limit: 0, Via: via, Pre: pi}
+						r := c16Check(c)
+						vfStats.record(r, func() any { return c })
+						if r.Err != nil {
+							vfEnumFail(t, "C16", "bombs", c, r.Err)
+							return
+						}
+					}
 				}
 			}
 		}
